@@ -17,6 +17,7 @@ from harness.ckpt import NUMERIC, PLAIN, compare_states, fs_world, make_calibrat
 from harness.common import Case, f
 from symx.core import lift
 from symx.memfs import MemFS
+from symx.core import reraise_if_harness  # noqa: E402
 
 LEVEL = "model_checking"
 FUNCTIONS = [
@@ -81,6 +82,7 @@ def case_roundtrip(P, E, loss, special=False):
                 try:
                     c.create_checkpoint(FOLDER)
                 except Exception as e:  # noqa: BLE001
+                    reraise_if_harness(e)
                     ctx.prove(z3.Or(z3.BoolVal(False), sched.t != sk), "restore_equals_saved", f"create_checkpoint raised {type(e).__name__}: {str(e)[:120]} (scheduler kind {sk})")
                     return
                 (c.params_samp, c.losses_samp, c.series_samp, c.batch_num_samp, c.method_samp, c.n_sampled_params, c.current_batch_index) = full
@@ -94,11 +96,13 @@ def case_roundtrip(P, E, loss, special=False):
             try:
                 c.create_checkpoint(FOLDER)
             except Exception as e:  # noqa: BLE001
+                reraise_if_harness(e)
                 ctx.prove(z3.Or(z3.BoolVal(False), sched.t != sk), "restore_equals_saved", f"create_checkpoint raised {type(e).__name__}: {str(e)[:120]} (scheduler kind {sk})")
                 return
             try:
                 r = cal.Calibrator.restore_from_checkpoint(FOLDER, model if P == 1 else model2d)
             except Exception as e:  # noqa: BLE001
+                reraise_if_harness(e)
                 ctx.prove(z3.Or(z3.BoolVal(False), prestate.t != ps), "restore_equals_saved", f"restore raised {type(e).__name__}: {str(e)[:120]} (pre-state {ps})")
                 return
             restored = state_of(r)
@@ -177,10 +181,12 @@ def replay_roundtrip(P, E, loss, ps, sk, rprime_i, v, special=False):
                 try:
                     c.create_checkpoint(tmp)
                 except Exception as e:  # noqa: BLE001
+                    reraise_if_harness(e)
                     return True, f"create_checkpoint with {'RL' if sk else 'round-robin'} scheduler raised {type(e).__name__}: {str(e)[:100]}"
                 try:
                     r = cal.Calibrator.restore_from_checkpoint(tmp, model if P == 1 else model2d)
                 except Exception as e:  # noqa: BLE001
+                    reraise_if_harness(e)
                     return True, f"restore raised {type(e).__name__}: {str(e)[:100]}"
                 restored = state_of(r)
                 for k in NUMERIC:
@@ -251,6 +257,7 @@ def case_after_calibrate(conv, nb):
                 try:
                     r = cal.Calibrator.restore_from_checkpoint(tmp, model)
                 except Exception as e:  # noqa: BLE001
+                    reraise_if_harness(e)
                     return True, f"restore after calibrate({nb}) raised {type(e).__name__}: {e}"
                 rs = state_of(r)
             msgs = []
